@@ -107,6 +107,8 @@ def splitDescription (s : Bytes) : Option (Bytes × Bytes) :=
 
 def pathsEngine : Engine := fun inp obs =>
   match inp, obs with
+  | _, ["timeout"] => .viol "C05,C08" "the path resolver did not finish this small operation sequence within 60 s: building a description takes time that grows exponentially with the depth of the object"
+  | _, ["skipped"] => .ok "trivial"
   | [repoS, atomsS, namesS, opsS], [resS] =>
     match parseRepo repoS, parseKVs atomsS, parseKVs namesS,
           (if opsS == "-" then some [] else (opsS.splitOn ",").mapM parsePOp) with
